@@ -17,6 +17,9 @@ if os.path.isdir(cd):
     for f in sorted(os.listdir(cd)):
         if f.endswith('.json'):
             CLAIMED.update(json.load(open(os.path.join(cd, f))))
+EXCL = set(filter(None, os.environ.get('MANIFEST_EXCLUDE', '').split(',')))
+for x in EXCL:
+    CLAIMED.pop(x, None)
 checks, na = [], []
 for p in props:
     pid = p['id']
